@@ -252,8 +252,9 @@ def handleInst (q n shards ops : String) (impl : String) : Verdict :=
   `C12 world s<shards> <script> <op> <op> ... => T:<step>;..|E:<e>,..|d=<files>|u=<files>|ut=<files>|tbl=..|tblt=..|snap=..|tf=..`
 
 see harness/cmd/hv/c12.go.  The model replays the twin's facts with the fault script (`wstep`) and
-predicts the error flags, the files that end up different from the twin's, the files HAProxy never
-read and whether the running server table matches the files. -/
+predicts the error flag of every reconcile and whether the history ends with nothing owed; the
+Spec is evaluated on the comparison with the twin (semantic normal form, files read by HAProxy,
+server table). -/
 
 def parseFileFact (s : String) : Option FileFact :=
   match s.splitOn "@" with
@@ -320,26 +321,25 @@ def handleWorld (script : String) (ops : List String) (impl : String) : Verdict 
       if steps.length != nsync then bad "steps" else
       let faults := (List.range steps.length).map fun i => ((scr.find? (·.1 == i)).map (·.2)).getD .none
       let st := wrun {} (steps.zip faults)
-      let prio := steps.any fun t => (t.pre ++ t.post).any fun g => isPrioFile g.name
-      let st := if prio && !st.unknown then { st with unknown := true, known := steps.length } else st
       let es := ",".intercalate (st.errs.map fun b => if b then "1" else "0")
-      let md := showNames (sortNames st.diff)
-      let mu := showNames (sortNames st.unloaded)
-      let mt := if st.tableOK then "eq" else "diff"
-      let m := if st.unknown then s!"E:{es}|?" else s!"E:{es}|d={md}|u={mu}|tbl={mt}"
       let eImpl := e.splitOn ","
       let eModel := st.errs.map fun b => if b then "1" else "0"
-      let agree := if st.unknown then eImpl.take st.known == eModel.take st.known && eImpl.length == eModel.length
-        else es == e && md == d && mu == u && mt == tbl
+      let uNames := if u == "-" then [] else u.splitOn "+"
+      let utNames := if ut == "-" then [] else ut.splitOn "+"
+      let unl := uNames.filter fun n => !utNames.contains n
+      let implConv := snap == "eq" && (tbl == "eq" || tblt != "eq") && unl.isEmpty
+      let m := s!"E:{es}|conv={if st.converged then 1 else 0}" ++ (if st.unknown then s!"|known={st.known}" else "")
+      -- error flags: all of them, or the ones before the facts stop describing the faulty controller;
+      -- a history the model sees converged must be converged
+      let agree := eImpl.length == eModel.length &&
+        (if st.unknown then eImpl.take st.known == eModel.take st.known
+         else eImpl == eModel && (!st.converged || implConv))
       -- the property: after the last fault, a fault-free retry with no new event was made (the harness
       -- always appends it); files = the twin's, HAProxy = the files
       let lastFault := (faults.zipIdx.filter fun x => x.1 != .none).getLast?
       let retried := match lastFault with
         | some (_, i) => decide (i + 1 < steps.length)
         | none => true
-      let uNames := if u == "-" then [] else u.splitOn "+"
-      let utNames := if ut == "-" then [] else ut.splitOn "+"
-      let unl := uNames.filter fun n => !utNames.contains n
       let dNames := if d == "-" then [] else d.splitOn "+"
       let stale := snap != "eq"
       let lastIsReload := match lastFault with
